@@ -78,13 +78,20 @@ def choose_xlim(rng, tab, kind):
         r = int(rng.integers(1, len(df)))
         k1 = int(N[r]) + int(rng.choice([0, 1]))          # stop exactly on / one past the closing extremum
         k0 = int(rng.integers(0, max(1, int(L[r]))))
+    elif kind == 'trunc_start':
+        # start samples k whose time k/fs multiplies back to just below k: truncation instead of rounding shows here
+        ks = [k for k in range(1, max(2, n - 10)) if grid_ok(k, fs) and int((k / fs) * fs) != k]
+        if not ks:
+            return None
+        k0 = int(ks[int(rng.integers(0, len(ks)))])
+        k1 = int(rng.integers(k0 + 5, n))
     elif kind == 'no_cycle':
         r = int(rng.integers(0, len(df)))
         k0 = int(L[r]) + 1
         k1 = max(k0 + 3, int(N[r]) - 1)
     else:
         raise KeyError(kind)
-    k0 = snap_grid(k0, fs, n, +1 if kind != 'start_on_side' else 0) if kind != 'start_on_side' else (k0 if grid_ok(k0, fs) else None)
+    k0 = snap_grid(k0, fs, n, +1) if kind not in ('start_on_side', 'trunc_start') else (k0 if grid_ok(k0, fs) else None)
     if kind == 'end_on_side':
         k1 = k1 if grid_ok(k1, fs) else None
     else:
@@ -387,7 +394,7 @@ def run_summary(sh, tab, xlim, plot_only_result, interp, api='func', driver='sum
     return True, nontrivial
 
 
-XKINDS = ['none', 'random', 'random', 'start_on_side', 'end_on_side', 'no_cycle']
+XKINDS = ['none', 'random', 'trunc_start', 'start_on_side', 'end_on_side', 'no_cycle']
 
 
 def run(sh):
